@@ -304,6 +304,7 @@ register("C17", title="session lifecycle", engine="irc-history-engine", pkg="./i
                 {"test": "^TestVerifC17Concurrent$", "children": {"quick": 2, "thorough": 8}, "cases": {"quick": 30000, "thorough": 400000}},
                 {"test": "^TestVerifIRC$", "children": {"quick": 8, "thorough": 16}, "cases": {"quick": 150, "thorough": 3000}},
                 {"pkg": ".", "test": "^TestVerifC17API$", "children": {"quick": 1, "thorough": 4}, "cases": {"quick": 10, "thorough": 100}},
+                {"pkg": "./internal/api", "test": "^TestVerifC17Leader$", "children": {"quick": 1, "thorough": 4}, "cases": {"quick": 20, "thorough": 300}},
                 dict(MAIN_ENGINE),
                 {"cluster": True, "children": {"quick": 1, "thorough": 4}, "cases": {"quick": 1, "thorough": 3}, "race": {"quick": False, "thorough": False},
                  "timeout": {"quick": 500, "thorough": 2400}}],
